@@ -2378,15 +2378,19 @@ is_equal(const CPPDeclaration *other) const {
     return _u._typecast._op1 == ot->_u._typecast._op1;
 
   case T_unary_operation:
-    return *_u._op._op1 == *ot->_u._op._op1;
+    return _u._op._operator == ot->_u._op._operator &&
+      *_u._op._op1 == *ot->_u._op._op1;
 
   case T_binary_operation:
-    return *_u._op._op1 == *ot->_u._op._op1 &&
+    return _u._op._operator == ot->_u._op._operator &&
+      *_u._op._op1 == *ot->_u._op._op1 &&
       *_u._op._op2 == *ot->_u._op._op2;
 
   case T_trinary_operation:
-    return *_u._op._op1 == *ot->_u._op._op1 &&
-      *_u._op._op2 == *ot->_u._op._op2;
+    return _u._op._operator == ot->_u._op._operator &&
+      *_u._op._op1 == *ot->_u._op._op1 &&
+      *_u._op._op2 == *ot->_u._op._op2 &&
+      *_u._op._op3 == *ot->_u._op._op3;
 
   case T_literal:
     return *_u._literal._value == *ot->_u._literal._value &&
@@ -2404,7 +2408,8 @@ is_equal(const CPPDeclaration *other) const {
 
   case T_type_trait:
     return _u._type_trait._trait == ot->_u._type_trait._trait &&
-           _u._type_trait._type == ot->_u._type_trait._type;
+           _u._type_trait._type == ot->_u._type_trait._type &&
+           _u._type_trait._arg == ot->_u._type_trait._arg;
 
   case T_lambda:
     return _u._closure_type == ot->_u._closure_type;
@@ -2499,6 +2504,9 @@ is_less(const CPPDeclaration *other) const {
     // Fall through
 
   case T_unary_operation:
+    if (_u._op._operator != ot->_u._op._operator) {
+      return _u._op._operator < ot->_u._op._operator;
+    }
     return *_u._op._op1 < *ot->_u._op._op1;
 
   case T_literal:
@@ -2522,6 +2530,9 @@ is_less(const CPPDeclaration *other) const {
   case T_type_trait:
     if (_u._type_trait._trait != ot->_u._type_trait._trait) {
       return _u._type_trait._trait < ot->_u._type_trait._trait;
+    }
+    if (_u._type_trait._arg != ot->_u._type_trait._arg) {
+      return _u._type_trait._arg < ot->_u._type_trait._arg;
     }
     return *_u._type_trait._type < *ot->_u._type_trait._type;
 
